@@ -23,7 +23,7 @@ LEVEL_TEXT = ('The decoder is compared line by line with a reference decoder wri
               'distinction; for the shipped tables every entry is hit through every wildcard fill and missed through every '
               'one-nibble deviation, and the table as read by the repository is compared with an independent scan.')
 LEVEL_NOTE = ('PTE values outside the derived alphabets, multi-digit parameter numbers and header syntax beyond the shipped '
-              'style are not explored; CPython %-formatting trusted; whether "Undefined" gets the reported suffix is not constrained')
+              'style are not explored; CPython %-formatting trusted')
 RULE = ('synthetic: tables = all sequences of length 0..2 (quick) / 0..3 (thorough) over 14 (pattern, message, params) entries, '
         'each in 2 syntax variants; data = blob of all 336 alphabet entries, the reversed blob with all-zero entries '
         'interleaved, each with trailing partial lengths 0..7. shipped: per table entry, wildcard runs filled jointly with '
@@ -47,6 +47,12 @@ ALPHA = [
     ('E1040000', '   padded message   ', []),
     ('E20*0190', 'VRM %d fault, rail %d', [3]),
     ('E3******', 'no conversion but a parameter', [4]),
+    # parameter numbers of more than one digit designate no PTE byte (a PTE has bytes 1..4) and are discarded as numbers
+    ('0102**00', 'two-digit parameter %d|%d', [12]),
+    ('0102****', 'byte three %d and a two-digit number', [3, 14]),
+    # only '*' is a wildcard: other characters of a pattern stand for themselves
+    ('0103.***', 'a dot is not a wildcard', []),
+    ('E5******', 'reported-error catch-all below which nothing is defined', []),
 ]
 TS = [0, 1, 3599, 3600, 65534, 65535]
 SEQ = [0, 0xBEEF]
@@ -59,7 +65,8 @@ def pte_alphabet():
             for n3 in (0, 4, 5):
                 for n7 in (0, 1):
                     out.append((n0 << 28) | (n1 << 24) | (n3 << 16) | n7)
-    out += [0x01004142, 0x01014142, 0x0101FF00, 0xFFFFFFFF, 0x00000000, 0xE1040000, 0xE1000000, 0xE0041234, 0xF0040000, 0xE20C0190, 0xE2080190, 0xE30C7704, 0xE3087704]
+    out += [0x01004142, 0x01014142, 0x0101FF00, 0xFFFFFFFF, 0x00000000, 0xE1040000, 0xE1000000, 0xE0041234, 0xF0040000, 0xE20C0190, 0xE2080190, 0xE30C7704, 0xE3087704,
+            0x01022A00, 0x01022A2B, 0x0103A000, 0x01030000, 0xE4040000, 0xE4000000, 0xEF0C0001]
     return out
 
 
@@ -101,13 +108,11 @@ def shipped_path(t):
 
 
 def compare(got, want, data):
-    """first differing line, tolerating the unconstrained 'Undefined' + reported suffix"""
+    """first differing line"""
     if len(got) != len(want):
         return 'line count %d, expected %d' % (len(got), len(want))
     for i, (g, w) in enumerate(zip(got, want)):
         if g != w:
-            if w.endswith(' Undefined') and g == w + ' - PEL entry created':
-                continue
             return 'line %d: %r, expected %r' % (i, g, w)
     return None
 
@@ -133,7 +138,7 @@ def _rewrite_case(case):
             cheader.write_header(path, [ALPHA[i] for i in tbl], [('f', 1)])
             got = parse_ilog_data(memoryview(data), path)
             want = rilog.decode(data, table_model(tbl))
-            LAST['defined'] = sum(1 for w in want[2:] if not w.endswith(' Undefined'))
+            LAST['defined'] = sum(1 for w in want[2:] if ' Undefined' not in w)
             LAST['lines'] = len(want) - 2
             diff = compare(got, want, data)
             if diff:
@@ -166,7 +171,7 @@ def eval_case(case):
         got = parse_ilog_data(memoryview(data), path)
         core.disarm()
         want = rilog.decode(data, table)
-        LAST['defined'] = sum(1 for w in want[2:] if not w.endswith(' Undefined'))
+        LAST['defined'] = sum(1 for w in want[2:] if ' Undefined' not in w)
         LAST['lines'] = len(want) - 2
         diff = compare(got, want, data)
         if diff:
